@@ -47,6 +47,30 @@ def build(flavour, allow_fail=False):
     return p
 
 
+def build_extra(kind, flavour='rel'):
+    """Build one of the separate driver programs against /repo's headers and library:
+    'cxx'   = harness/cxx/drv_cxxhash.cpp (header-only C++ classes and helpers)
+    'nostl' = harness/cxx/drv_bytearray.cpp with -DASCON_NO_STL (replacement byte_array)
+    Returns (path or None, compiler output)."""
+    build(flavour)
+    lib = '%s/lib/%s' % (BUILD, flavour)
+    out_dir = '%s/%s' % (BUILD, kind); os.makedirs(out_dir, exist_ok=True)
+    exe = '%s/drv_%s' % (out_dir, kind)
+    san = '-O1 -g -fsanitize=address,undefined -fno-sanitize-recover=all' if 'san' in flavour.split('+') else '-O1'
+    if kind == 'cxx':
+        cmd = 'g++ -std=c++11 %s -Wall -DDRV_EXTRA_ONLY -DHAVE_CONFIG_H -I%s/src -I%s -I%s/harness %s/harness/drv_main.cpp %s/harness/cxx/drv_cxxhash.cpp %s/src/libascon_static.a -o %s' % (
+            san, REPO, lib, ROOT, ROOT, ROOT, lib, exe)
+    elif kind == 'nostl':
+        cmd = 'g++ -std=c++11 %s -Wall -DDRV_EXTRA_ONLY -DASCON_NO_STL=1 -DHAVE_CONFIG_H -I%s/src -I%s -I%s/harness %s/harness/drv_main.cpp %s/harness/cxx/drv_bytearray.cpp %s/src/cplusplus/ascon-byte-array.cpp %s/src/libascon_static.a -o %s' % (
+            san, REPO, lib, ROOT, ROOT, ROOT, REPO, lib, exe)
+    else:
+        raise Infra('unknown extra driver ' + kind)
+    rc, out = sh(cmd, timeout=600)
+    with open(out_dir + '/build.log', 'w') as f:
+        f.write(cmd + '\n' + out)
+    return (exe if rc == 0 else None), cmd, out
+
+
 def build_many(flavours):
     with cf.ThreadPoolExecutor(max_workers=min(NPROC, 8)) as ex:
         list(ex.map(build, flavours))
@@ -228,9 +252,9 @@ def validate_trace(trace, work_dir, tracecfg='Trace'):
     return res
 
 
-def run_plan(plan, flavour, name, tracecfg='Trace', max_cost=60.0, env=None, max_cases=400):
+def run_plan(plan, flavour, name, tracecfg='Trace', max_cost=60.0, env=None, max_cases=400, drv=None):
     """Run all shards of a plan in parallel.  Returns (results, n_events)."""
-    drv = build(flavour)
+    drv = drv or build(flavour)
     base = '%s/run/%s_%s' % (BUILD, name, flavour.replace('+', '_'))
     shutil.rmtree(base, ignore_errors=True)
     jobs = []
@@ -322,7 +346,7 @@ class Check:
         confirmed = []
         for r in bad[:6]:
             # report only what an immediate re-run of the same shard reproduces
-            drv = build(flavour)
+            drv = kw.get('drv') or build(flavour)
             lines = open(r['dir'] + '/plan.txt').read().split('\n')
             r2 = run_shard((drv, r['dir'] + '_rerun', [x for x in lines if x], kw.get('tracecfg', 'Trace'), kw.get('env') or {}))
             if r2['status'] == 'infra':
@@ -341,7 +365,7 @@ class Check:
                 if os.path.exists(r['dir'] + '/' + fn):
                     shutil.copy(r['dir'] + '/' + fn, rd + '/' + fn)
             with open(rd + '/flavour', 'w') as f:
-                f.write(flavour + '\n' + kw.get('tracecfg', 'Trace') + '\n')
+                f.write(flavour + '\n' + kw.get('tracecfg', 'Trace') + '\n' + (kw.get('drv') or '') + '\n')
             key = key_fn(r) if key_fn else default_key(r)
             self.violation(key, '%s [flavour %s] event: %s' % (r.get('detail'), flavour, (r.get('event') or '')[:300]), rd)
         # samples: first events of the first shard
@@ -420,8 +444,13 @@ def replay(pid, d):
     """Re-run a saved violation: the plan through the driver, the trace through TLC."""
     try:
         if os.path.exists(d + '/plan.txt'):
-            fl, cfg = (open(d + '/flavour').read().split('\n') + ['Trace'])[:2] if os.path.exists(d + '/flavour') else ('rel', 'Trace')
+            fl, cfg, xdrv = (open(d + '/flavour').read().split('\n') + ['Trace', ''])[:3] if os.path.exists(d + '/flavour') else ('rel', 'Trace', '')
             drv = build(fl)
+            if xdrv:
+                kind = 'nostl' if 'nostl' in xdrv else 'cxx'
+                drv, _, out = build_extra(kind, fl)
+                if not drv:
+                    print(out[-2000:]); print('VIOLATION property=%s replay=%s' % (pid, d)); return 1
             lines = [x for x in open(d + '/plan.txt').read().split('\n') if x]
             r = run_shard((drv, BUILD + '/run/replay_%d' % os.getpid(), lines, cfg or 'Trace', {}))
             print(json.dumps({k: v for k, v in r.items() if k != 'drv_out'}, indent=1)[:3000])
